@@ -214,8 +214,11 @@ def view_result(res):
 
 def binder_obligations(chk, I, flags, clsname, restrict_accept=True, tag=""):
     """All clauses for one (matrix row, binder class) pair."""
-    func = f"{MOD}.{clsname}.__call__"
+    real_func = f"{MOD}.{clsname}.__call__"
     rowname = "".join("T" if f else "F" for f in flags)
+    # the contract unit is "the binder selected for this matrix row" (stable under re-pointing a row)
+    func = f"{MOD}._BINDING_CLS_MATRIX[{rowname}].__call__"
+    chk.functions.add(real_func)
     state = {}
 
     def mk(I, path):
@@ -229,22 +232,25 @@ def binder_obligations(chk, I, flags, clsname, restrict_accept=True, tag=""):
         state[id(path)] = (sig, call)
         return [slf, call.args_seq(), call.kwargs_dict()], {}, (sig, call)
 
-    results = I.run_function(func, mk)
+    results = I.run_function(real_func, mk)
     n = 0
     for pi, (path, out, obls, writes, extra) in enumerate(results):
         sig, call = extra
         pid = f"row={rowname}/p{pi}"
         hy = path.hyps
         meta = {"row": rowname, "cls": clsname}
-        for (nm, pc, goal) in obls:
-            if restrict_accept:
+        if restrict_accept:
+            for (nm, pc, goal) in obls:
                 chk.add(Ob(func, f"no-internal-raise[{rowname}]", pid, pc, goal, meta))
+            if not obls:   # keep the clause set independent of the body's shape
+                chk.add(Ob(func, f"no-internal-raise[{rowname}]", pid, hy, z3.BoolVal(True), dict(meta, trivial=True)))
         if out.kind == "raise":
-            # accepted call: the binder itself must not raise
+            # accepted call: the binder itself must not raise -> every routing clause fails on this path
             internal = isinstance(out.exc.exc_cls, type)
             if restrict_accept:
-                chk.add(Ob(func, f"returns[{rowname}]", pid, hy, z3.BoolVal(False),
-                           dict(meta, exc=str(out.exc.exc_cls))))
+                for cl in ("len", "pos", "keys", "kw"):
+                    chk.add(Ob(func, f"{cl}[{rowname}]", pid, hy, z3.BoolVal(False),
+                               dict(meta, exc=str(out.exc.exc_cls), note="binder raised on an accepted call")))
             else:
                 ok = (internal and issubclass(out.exc.exc_cls, TypeError))
                 chk.add(Ob(func, f"rejected-shape[{rowname}]", pid, hy, z3.BoolVal(ok), meta))
